@@ -1042,7 +1042,7 @@ impl<M: AlignMarker> Ctx<M> {
             }
             K::Defer => {
                 if let Some((g, _)) = self.guard_ref(a) {
-                    crate::closures::defer_shape(tid, g, b);
+                    crate::closures::defer_shape_chain(tid, g, b, o.c.min(4));
                 }
             }
             K::TryAdvance => {
